@@ -9,7 +9,10 @@ class C02(Prop):
     title = "Session lifecycle for N UEs: establish, service request, release, deregister"
     lean_module = "Stgutg.Props.C02"
     extra_modules = ["Stgutg.Proofs.BuildersLife", "Stgutg.Props.C02Steps", "Stgutg.Props.C02Life", "Stgutg.Props.C02History",
-                     "Stgutg.Props.C02Script", "Stgutg.Proofs.EmulatorLife", "Stgutg.Props.C02Accepted", "Stgutg.Props.C02Traffic", "Stgutg.Proofs.GenTieMin", "Stgutg.Gen.PureSelftest"]
+                     "Stgutg.Props.C02Script", "Stgutg.Proofs.EmulatorLife", "Stgutg.Props.C02Accepted",
+                     "Stgutg.Proofs.EmulatorDlLife", "Stgutg.Proofs.EmulatorLifeReenc", "Stgutg.Proofs.EmulatorLifeArgs",
+                     "Stgutg.Props.C02AcceptedOne", "Stgutg.Proofs.EmulatorLifeN", "Stgutg.Proofs.EmulatorLifeLoops",
+                     "Stgutg.Props.C02AcceptedN", "Stgutg.Props.C02Statement", "Stgutg.Props.C02Traffic", "Stgutg.Proofs.GenTieMin", "Stgutg.Gen.PureSelftest"]
     gen = ["schema", "registry", "templates", "nasie", "naslayout", "nassetters", "extract", "script", "tables", "traffic", "pure-min", "pure-selftest"]
     theorems = ["Stgutg.Proofs.GenTie.Min.Min_eq"] + ["Stgutg.Props.C02Traffic." + t for t in [
         # the traffic-mode branch of main (not runnable here: XDP) makes the calls of test mode with counts (N, N, 0, N, N)
@@ -30,11 +33,28 @@ class C02(Prop):
         "C02_calls_are_the_emulators",
         # through emulate, one UE, all counts 1 (Props/C02Accepted.lean)
         "C02_accepted_partial",
+        # the downlink after registration SPECIFIED (Spec/AmfDownlink.lean): one UE (Props/C02AcceptedOne.lean), then N <= 10000 UEs
+        # and arbitrary repetition counts (Props/C02AcceptedN.lean)
+        "dlEstablish_some", "dlService_some", "dlDeregister_some", "C02_accepted_one",
+        "natMin_eq", "C02_accepted_n_for_downlink", "decOr_of", "C02_accepted_n",
+        # C02_accepted_statement itself, instantiated (Props/C02Statement.lean), and its kernel-checked non-vacuity witness
+        "collect_some", "ulRan_eq", "ulPsi_eq", "C02_accepted_statement_spec", "wfCfg_wellFormed", "C02_accepted_statement_witness",
     ]] + ["Stgutg.Proofs.Emulator." + t for t in ["forUes_ok", "registerLoop_ok", "ueRun_counts", "estimate_next"]] \
       + ["Stgutg.Proofs.EmulatorLife." + t for t in [
         "protect_reenc", "reencOK_elim", "reenc_serviceRequest", "reenc_releaseRequest", "establishPDU_run", "serviceRequest_run",
         "releasePDU_run", "deregisterUE_run", "forUes_one", "emulate_life_run"]] \
       + ["Stgutg.Proofs.EmulatorRun.registerUE_run_result"] \
+      + ["Stgutg.Proofs.EmulatorDlLife." + t for t in [
+        "setupReq_static", "setupReq_roundtrip", "ueCtxRel_static", "ueCtxRel_roundtrip", "protectAt_eq", "beNat_natBE4",
+        "setupReq_carries", "extractReport_spec"]] \
+      + ["Stgutg.Proofs.EmulatorLifeReenc." + t for t in [
+        "life_dispatch", "ulMsg_model", "ulMsg_wf", "reenc_ulNasTransport", "reenc_ulEstablishment", "reenc_ulReleaseComplete",
+        "reenc_deregistrationRequest"]] \
+      + ["Stgutg.Proofs.EmulatorLifeArgs." + t for t in ["supiInt_prefix", "supiInt_created", "supi_range", "ran_range", "psi_facts"]] \
+      + ["Stgutg.Proofs.EmulatorLifeN." + t for t in [
+        "run_cons", "run_append", "Judged.write", "find_range_map", "setUe_range_map", "ueList_get", "ueList_set", "forUes_inv",
+        "psiOf_facts", "argsOf_ok", "ran_inj", "Glob.find", "Glob.known", "Glob.update", "glob_step", "proc_loop",
+        "est_emul", "svc_emul", "rel_emul", "dereg_loop", "register_one", "register_loop"]] \
       + ["Stgutg.Proofs.BuildersLife." + t for t in [
         "life_noExtra", "life_carriers", "inRange_setupResponse", "inRange_icsResponseSvc", "inRange_releaseResponse",
         "inRange_ueContextReleaseComplete", "setupResponse_wire", "icsResponseSvc_wire", "releaseResponse_wire",
@@ -76,32 +96,54 @@ class C02(Prop):
                     "a UE's WHOLE HISTORY — any sequence of EstablishPDU / ServiceRequest / ReleasePDU whose prerequisites hold, "
                     "COUNT strictly increasing up to 2^24 - 2, other UEs' records untouched (C02_history_accepted); and the whole "
                     "script of one UE, NG Setup + registration + any history + de-registration, judged `accept` by the C02 judge "
-                    "with the configured numbers of procedures and reported = assigned (C02_script_accepted). THROUGH emulate: "
-                    "Proofs/EmulatorLife.lean executes EstablishPDU / ServiceRequest / ReleasePDU / DeregisterUE and test mode "
-                    "symbolically (emulate_life_run: one UE, every count 1, fifteen uplink messages, nine downlink reads, one "
-                    "report, completed), and C02_accepted_partial: judge true (emulate cfg dls).uls (some reports) = accept for "
-                    "every decimal-IMSI configuration and AMF choice, with explicit hypotheses on what the emulator READS (the "
-                    "registration downlink as in C01_accepted_for_downlink; the four later downlink messages decodable, "
-                    "extractReport = the assigned triple) and C08's re-encoding for three plain messages with variable content "
-                    "(establishment request, release complete, deregistration request; proved for the other four). "
+                    "with the configured numbers of procedures and reported = assigned (C02_script_accepted). THROUGH emulate, "
+                    "END TO END: C02_accepted_n — for every well-formed configuration (as C01_accepted_n; S-NSSAI SD of 3 octets; a "
+                    "gNB GTP address the builders accept), N <= 10000 UEs, ANY integer repetition counts (the loops run min(N,pdu), "
+                    "min(est,svc), min(est,rel), min(N,dereg) times: C02_numbers_are_min over the bounds gen script extracts) and "
+                    "every choice of a conformant AMF/SMF per UE (RAND/SQN/AMF field/ngKSI, AMF-UE-NGAP-ID < 2^40, IPv4 UE and UPF "
+                    "addresses, TEID < 2^32), when the AMF sends the SPECIFIED downlink (Spec/AmfDownlink.lean, built with the "
+                    "specification encoders only: NG SETUP RESPONSE; per UE the four messages of registration; per establishment "
+                    "the PDU SESSION RESOURCE SETUP REQUEST carrying DL NAS TRANSPORT[PDU SESSION ESTABLISHMENT ACCEPT with the "
+                    "assigned address] protected under the vector's keys and the transfer with the assigned tunnel; per service "
+                    "request the INITIAL CONTEXT SETUP REQUEST[SERVICE ACCEPT]; per de-registration DOWNLINK NAS "
+                    "TRANSPORT[DEREGISTRATION ACCEPT] + UE CONTEXT RELEASE COMMAND; each within the 2048-octet receive buffer), "
+                    "emulate completes and judge true (emulate cfg dls).uls (some reports) = accept: no clause on any of the "
+                    "1+5N+2est+2svc+3rel+2dereg uplink messages, expected numbers of procedures, reported = assigned. Pieces: "
+                    "the emulator READS the specified messages (Proofs/EmulatorDlLife.lean: C03+C04 round trip of the setup "
+                    "request / UE CONTEXT RELEASE COMMAND skeletons, extractReport_spec = C12 through EstablishPDU's glue on the "
+                    "AMF-protected NAS-PDU); C08's re-encoding identity for the three remaining protected plain messages "
+                    "(Proofs/EmulatorLifeReenc.lean); the SUPI number / PSI / RAN-UE-NGAP-ID of UE j (Proofs/EmulatorLifeArgs.lean); "
+                    "the population invariant and the generic loop of test mode, emulator and judge together, other UEs' records "
+                    "untouched (Proofs/EmulatorLifeN.lean: Glob, Judged, forUes_inv, proc_loop; Proofs/EmulatorLifeLoops.lean: the "
+                    "emulator's side of each procedure, dereg_loop, register_loop with the list main keeps). C02_accepted_one "
+                    "(one UE, every count 1) and C02_accepted_n_for_downlink (reads as hypotheses) are the intermediate forms; "
+                    "C02_accepted_partial (with Proofs/EmulatorLife.lean: emulate_life_run) is the form with explicit reading / "
+                    "re-encoding hypotheses that they discharge. "
                     "one PDU session identity in 1..15 in NAS request, UL NAS TRANSPORT IE and NGAP response (C02_one_psi; false "
                     "before the F14 repair a0d23df). F14 (PSI = supi mod 10^4, uint8 for NAS only) and F19 (PTI 0 in PDU SESSION "
                     "RELEASE REQUEST / COMPLETE) were found by this check's reference AMF, repaired in /repo, and their replays run "
-                    "first on every check (harness/corpus/convo-life). NOT proved: the end-to-end "
-                    "C02_accepted_statement as stated — what is missing between C02_accepted_partial and it: a SPECIFICATION of the "
-                    "conformant AMF's four downlink messages after registration (setup request with NAS accept + transfer) with "
-                    "the read-hypotheses proved for it (done for registration: C01_accepted_n / Spec.AmfDl.dl), the three "
-                    "re-encoding hypotheses, counts other than 1, and the interleaving of N UEs' histories in test mode (the "
-                    "per-UE fold leaves the other records untouched: HistoryEnd.others). Traffic mode needs XDP and is not run; its "
+                    "first on every check (harness/corpus/convo-life). THE STATEMENT ITSELF: C02_accepted_statement_spec proves "
+                    "C02_accepted_statement P E (specDl P) (specOf . abba) (WellFormed P E abba) (Props/C02Statement.lean): `dl` = the "
+                    "whole downlink side as a FUNCTION of the network's configuration and choices (specDl: Spec/AmfDownlink.lean "
+                    "message by message, for the identifiers the UEs of the configured IMSI range use — RAN-UE-NGAP-ID (IMSI+j) mod "
+                    "10^4, PSI (IMSI+j+14) mod 15 + 1, capability 80 20 — proved equal to the emulator's), WF = a configuration as in "
+                    "C02_accepted_n for some N <= 10000 with any integer counts, a conformant choice per UE, and `the specification "
+                    "encoders encode the whole downlink side, every message within the 2048-octet buffer`. Non-vacuous: "
+                    "wfCfg_wellFormed establishes WellFormed for the configuration of the recorded registration with every count 1 "
+                    "(every field by kernel evaluation, cheapPrims) and C02_accepted_statement_witness is the statement applied to "
+                    "it — accept, without running emulator or judge. What the statement does not cover: populations above 10000 "
+                    "(C16's domain), a configuration without OPc (as C01_accepted_n), and an AMF that sends a PDU SESSION RESOURCE "
+                    "RELEASE COMMAND (ReleasePDU does not read; the specification's AMF sends none, like the "
+                    "scripted peer's default). Traffic mode needs XDP and is not run; its "
                     "branch of main is tied structurally (gen traffic + C02_traffic_is_test_mode: the calls of test mode with counts "
                     "(N, N, 0, N, N), no ueList[i] beyond the list, EstablishPDU's triple handed to the data plane in AddClient's order).")
     level_text = ("Lean theorems for all UE / repetition counts and configurations about an executable model of test mode and the "
                   "four procedures (arithmetic of the clamps, induction over the UE list, C06/C12/C13/C16 composed against the "
-                  "reference AMF; the judge accepts the whole uplink script of a UE for every history: C02_script_accepted); model tied to the code by whole-conversation differential runs incl. EstablishPDU's return "
+                  "reference AMF; the judge accepts the whole uplink script of a UE for every history: C02_script_accepted; END TO END through the emulator model with the downlink specified, N <= 10000 UEs and any counts: C02_accepted_n); model tied to the code by whole-conversation differential runs incl. EstablishPDU's return "
                   "values; the reference AMF/SMF judges every real transcript")
-    level_note = ("end-to-end acceptance: proved at judge level for every script of one UE (C02_script_accepted) and through "
-                  "emulate for one UE with every count 1 given what the emulator reads (C02_accepted_partial); evaluated per "
-                  "transcript otherwise; hand model tied differentially")
+    level_note = ("end-to-end acceptance: proved through emulate for N <= 10000 UEs and arbitrary repetition counts with the downlink "
+                  "side specified (C02_accepted_statement_spec = C02_accepted_statement instantiated; C02_accepted_n; C02_accepted_one for one UE), at judge level for every script of one UE "
+                  "(C02_script_accepted); evaluated per transcript as well; hand model tied differentially")
     technique = "Lean 4 proof (arithmetic + induction + per-clause composition) + whole-conversation correspondence + executable reference AMF as oracle"
 
     def key(self, op, impl, model, spec):
